@@ -504,6 +504,69 @@ func mismatchCases(yield func(*jcase) bool) {
 	}
 }
 
+// ---- quoted numbers ---------------------------------------------------------------------------------------------
+//
+// The JSON mapping of proto3 spells 64-bit integers as decimal STRINGS and accepts that spelling for every numeric
+// kind. A converter may refuse it (an error is no silent corruption) - but if it converts, the message must be the
+// denoted one: singular members, list elements (packed!) and map values.
+
+func quotedProgram() *pj.Program {
+	t := &pj.Msg{Name: "T", Fields: []*pj.Field{pj.F("one", 1, pj.Int64), pj.F("n32", 2, pj.Int32), pj.F("after", 3, pj.String),
+		pj.F("ids", 4, pj.Int64).Repeated(), pj.F("deltas", 5, pj.Sint64).Repeated(), pj.F("uids", 6, pj.Uint64).Repeated(),
+		pj.F("hashes", 7, pj.Fixed64).Repeated(), pj.F("offsets", 8, pj.Sfixed64).Repeated(), pj.F("m", 9, pj.Int64).MapOf(pj.String), pj.F("d", 10, pj.Double).Repeated()}}
+	f := &pj.File{Path: "main.proto", Pkg: pj.Pkg, Msgs: []*pj.Msg{t}, Svcs: []*pj.Service{pj.OneMethodService("T", "T")}}
+	return &pj.Program{Name: "quoted-numbers", Main: "main.proto", Files: []*pj.File{f}}
+}
+
+func quotedCases(yield func(*jcase) bool) {
+	prog := quotedProgram()
+	type qd struct {
+		what, text string
+		fill     func(m protoreflect.Message)
+	}
+	list := func(name string, vals ...protoreflect.Value) func(m protoreflect.Message) {
+		return func(m protoreflect.Message) {
+			l := m.Mutable(m.Descriptor().Fields().ByName(protoreflect.Name(name))).List()
+			for _, v := range vals {
+				l.Append(v)
+			}
+		}
+	}
+	i64, u64 := protoreflect.ValueOfInt64, protoreflect.ValueOfUint64
+	docs := []qd{
+		{"singular int64", `{"one":"9007199254740993","after":"x"}`, func(m protoreflect.Message) {
+			m.Set(m.Descriptor().Fields().ByName("one"), i64(9007199254740993))
+			m.Set(m.Descriptor().Fields().ByName("after"), protoreflect.ValueOfString("x"))
+		}},
+		{"singular int32", `{"n32":"-7"}`, func(m protoreflect.Message) { m.Set(m.Descriptor().Fields().ByName("n32"), protoreflect.ValueOfInt32(-7)) }},
+		{"list of int64", `{"ids":["1","2","3"]}`, list("ids", i64(1), i64(2), i64(3))},
+		{"list of int64, mixed spellings", `{"ids":[1,"2",3],"after":"x"}`, func(m protoreflect.Message) {
+			list("ids", i64(1), i64(2), i64(3))(m)
+			m.Set(m.Descriptor().Fields().ByName("after"), protoreflect.ValueOfString("x"))
+		}},
+		{"list of sint64", `{"deltas":["-1","300"]}`, list("deltas", i64(-1), i64(300))},
+		{"list of uint64", `{"uids":["18446744073709551615","0"]}`, list("uids", u64(18446744073709551615), u64(0))},
+		{"list of fixed64", `{"hashes":["4","5"]}`, list("hashes", u64(4), u64(5))},
+		{"list of sfixed64", `{"offsets":["-4","5"]}`, list("offsets", i64(-4), i64(5))},
+		{"list of double", `{"d":["1.5","-2"]}`, list("d", protoreflect.ValueOfFloat64(1.5), protoreflect.ValueOfFloat64(-2))},
+		{"map value int64", `{"m":{"k":"-9"}}`, func(m protoreflect.Message) {
+			m.Mutable(m.Descriptor().Fields().ByName("m")).Map().Set(protoreflect.ValueOfString("k").MapKey(), i64(-9))
+		}},
+	}
+	for _, q := range docs {
+		q := q
+		jc := &jcase{prog: prog, what: "numbers spelled as JSON strings: " + q.what, focus: "quoted-number:" + strings.Fields(q.what)[0],
+			docs: func(c *pj.Compiled) []doc {
+				want := dynamicpb.NewMessage(c.Ref.Msg(pj.Pkg + ".T"))
+				q.fill(want)
+				return []doc{{text: []byte(q.text), want: want, expect: wantOKOrError}}
+			}}
+		if !yield(jc) {
+			return
+		}
+	}
+}
+
 // ---- spellings --------------------------------------------------------------------------------------------------
 
 func spellingProgram() *pj.Program {
